@@ -26,7 +26,7 @@ ASSUMPTIONS = [
     "destructive: for intervals scaled by k (same start) every frame is k times the corresponding frame, to 1e-9 relative",
 ]
 COMPONENTS = {"real": ["pyxel exposure/readout", "illumination, stripe_pattern, load_image, load_charge, dark_current, simple_conversion, simple_collection", "scratch filesystem for input files"], "stub": []}
-BUDGET = {"quick": {"n": 480, "wall": 100, "determinism": 4}, "thorough": {"n": 60000, "wall": 1500, "determinism": 12}}
+BUDGET = {"quick": {"n": 480, "wall": 100, "determinism": 4}, "thorough": {"n": 80000, "wall": 1500, "determinism": 12}}
 REQUIRED_REACH = ["type:CCD", "type:CMOS", "type:MKID", "type:APD", "mode:nd", "mode:destructive", "model:illumination", "model:stripe_pattern", "model:load_image", "model:load_charge", "model:dark_current", "partition:short-first", "partition:long-last", "partition:uniform", "partition:random", "nonzero_start", "twelve_readouts"]
 
 
